@@ -369,7 +369,7 @@ GEOMETRY = (TM + 'Tilemap::tile', TM + 'Tilemap::tile_offsets', TM + 'TilemapDat
             F + 'write_tilemap_cel_to_image', TS + 'TileSize::pixels_per_tile', TS + 'Tileset::tile_image', TS + 'Tileset::image')
 
 
-def no_wrap(ctx):
+def no_wrap(ctx, rule='Q6', functions=None):
     """Q6: the index polynomials above ignore casts and widths, so the same functions' checked arithmetic must not be able to wrap
     (a wrapped index makes lookup, slice and image disagree): every overflow / division site is width-safe or discharged by the
     rows C04/C05/C16 use"""
@@ -385,9 +385,9 @@ def no_wrap(ctx):
         bad = [n for n in names if not I.get(n)[0]]
         return (not bad), ('relies on %s' % ', '.join(names)) + ('' if not bad else ' - NOT ESTABLISHED: %s' % ', '.join(bad))
     handles = dict(layer=True, frame=True, cel=True, tilemap=True)
-    bodies = [fx.body(n) for n in GEOMETRY if fx.body(n) is not None]
+    bodies = [fx.body(n) for n in (functions or GEOMETRY) if fx.body(n) is not None]
     inv = [s_ for s_ in panics.inventory(fx, bodies) if s_.kind.startswith(('overflow:', 'neg', 'div0'))]
-    ctx.floor('arithmetic sites in the tile-geometry functions', len(inv), 15)
+    ctx.floor('arithmetic sites examined for wrapping (%s)' % rule, len(inv), 10)
     counts = {}
     for s_ in inv:
         n = counts.get((s_.body.name, s_.kind, s_.what), 0)
@@ -403,8 +403,8 @@ def no_wrap(ctx):
                     ok, reason = False, 'obligation crashed: %r' % (e,)
             else:
                 ok, reason, _ = _c05.discharge(ctx, I, s_, handles, need)
-        ctx.inst('Q6', '%s %s' % (s_.body.name.split('asefile::')[-1], s_.kind), ok, '%s at %s cannot wrap: %s' % (s_.kind, s_.what[:70], reason), s_.span,
-                 key='Q6|' + s_.key(n))
+        ctx.inst(rule, '%s %s' % (s_.body.name.split('asefile::')[-1], s_.kind), ok, '%s at %s cannot wrap: %s' % (s_.kind, s_.what[:70], reason), s_.span,
+                 key=rule + '|' + s_.key(n))
 
 
 def run(ctx):
@@ -431,4 +431,6 @@ def run(ctx):
     tileset_images(ctx)
     rasteriser(ctx)
     no_wrap(ctx)
+    import layout as _layout
+    _layout.tile_words(ctx, 'Q5')          # the tile ids that lookup, slice and image all consume
     ctx.samples = [i for i in ctx.instances][:16]
